@@ -231,6 +231,71 @@ func factsC19() {
 			rxIsRx = ok2(found["rxtb"], params[0]) && ok2(found["txtb"], params[1]) && params[0] == "rxRate" && params[1] == "txRate"
 		}
 	}
+	// what happens to the two parameters before the buckets are made: nothing (cap 0), or each is replaced by
+	// min(itself, C) for one constant C (cap C); any other assignment to a parameter is not recognised
+	rateCap, capOK, capSrc := int64(0), true, "MakeValve: the parameters are handed to the buckets as they come"
+	if mv != nil && mv.Type.Params != nil {
+		isParam := map[string]bool{}
+		for _, f := range mv.Type.Params.List {
+			for _, n := range f.Names {
+				isParam[n.Name] = true
+			}
+		}
+		clamped := map[string]int64{}
+		ast.Inspect(mv.Body, func(n ast.Node) bool {
+			switch x := n.(type) {
+			case *ast.AssignStmt:
+				for i, l := range x.Lhs {
+					id, ok := l.(*ast.Ident)
+					if !ok || !isParam[id.Name] {
+						continue
+					}
+					good := false
+					if len(x.Lhs) == len(x.Rhs) && x.Tok == token.ASSIGN {
+						if c, ok := x.Rhs[i].(*ast.CallExpr); ok && show(c.Fun) == "min" && len(c.Args) == 2 && show(c.Args[0]) == id.Name {
+							if v, err := pkgs[mx].evalConst(c.Args[1], 0); err == nil && v > 0 {
+								if _, dup := clamped[id.Name]; !dup {
+									clamped[id.Name] = v
+									good = true
+								}
+							}
+						}
+					}
+					if !good {
+						capOK = false
+					}
+				}
+			case *ast.IncDecStmt:
+				if id, ok := x.X.(*ast.Ident); ok && isParam[id.Name] {
+					capOK = false
+				}
+			case *ast.UnaryExpr:
+				if id, ok := x.X.(*ast.Ident); ok && x.Op == token.AND && isParam[id.Name] {
+					capOK = false
+				}
+			}
+			return true
+		})
+		if len(clamped) > 0 {
+			if len(clamped) != len(isParam) {
+				capOK = false
+			}
+			for _, v := range clamped {
+				if rateCap != 0 && v != rateCap {
+					capOK = false
+				}
+				rateCap = v
+			}
+			capSrc = "MakeValve: each parameter is replaced by min(itself, C) once, nothing else is assigned to a parameter; C"
+		}
+	} else {
+		capOK = false
+	}
+	if capOK {
+		emit(g, "valveRateCap", "Int", fmt.Sprintf("%d", rateCap), capSrc)
+	} else {
+		unrec(g, "valveRateCap", "MakeValve assigns to its parameters in a way other than p = min(p, constant)")
+	}
 	boolFact(g, "valveCapacityIsRate", capIsRate, "MakeValve: both buckets are ratelimit.NewBucketWithRate(float64(r), r): capacity = one second's worth of the rate")
 	boolFact(g, "valveRxTxNotSwapped", rxIsRx, "MakeValve(rxRate, txRate): rxtb from rxRate, txtb from txRate")
 	rw, tw := fnOf(mx, "LimitedValve.rxWait"), fnOf(mx, "LimitedValve.txWait")
